@@ -212,10 +212,49 @@ func (c *Check) rangeComparesScaledValues() {
 		return
 	}
 	n := 0
-	forEachFuncAndAnon(f, func(g *ssa.Function) {
-		if g == f {
-			return
+	// the predicates: the function literals of parseTagFilterRange, and the functions or
+	// methods whose values it returns (a range type with a contains method)
+	var preds []*ssa.Function
+	seenPred := map[*ssa.Function]bool{f: true}
+	addPred := func(g *ssa.Function) {
+		for i := 0; i < 3 && g != nil; i++ {
+			if g.Synthetic == "" {
+				break
+			}
+			// bound-method / thunk wrapper: the method it forwards to
+			var fwd *ssa.Function
+			for _, b := range g.Blocks {
+				for _, ins := range b.Instrs {
+					if call, ok := ins.(*ssa.Call); ok && call.Call.StaticCallee() != nil {
+						fwd = call.Call.StaticCallee()
+					}
+				}
+			}
+			g = fwd
 		}
+		if g != nil && !seenPred[g] && fnInModule(g) && len(g.Blocks) > 0 {
+			seenPred[g] = true
+			preds = append(preds, g)
+		}
+	}
+	for _, h := range withHelpers(f, 1) {
+		forEachFuncAndAnon(h, func(g *ssa.Function) {
+			if g.Parent() != nil {
+				addPred(g)
+			}
+		})
+		for _, b := range h.Blocks {
+			if ret, ok := b.Instrs[len(b.Instrs)-1].(*ssa.Return); ok && h == f {
+				for _, r := range ret.Results {
+					fns, _ := p.MG().funcValues(r, map[ssa.Value]bool{})
+					for _, g := range fns {
+						addPred(g)
+					}
+				}
+			}
+		}
+	}
+	for _, g := range preds {
 		for _, b := range g.Blocks {
 			for _, ins := range b.Instrs {
 				cmp, ok := ins.(*ssa.BinOp)
@@ -253,9 +292,9 @@ func (c *Check) rangeComparesScaledValues() {
 				}
 			}
 		}
-	})
-	if n < 4 {
-		c.undecided("C06-R6", "range-compare", p.relFile(f.Pos()), fmt.Sprintf("expected the comparisons of the four range predicates, found %d", n))
+	}
+	if n == 0 {
+		c.undecided("C06-R6", "range-compare", p.relFile(f.Pos()), "no numeric comparison found in the predicates parseTagFilterRange returns")
 	}
 }
 
